@@ -127,7 +127,7 @@ PERTURB_ANG = (0.5, 5, 30, 45, 60, 85, 89.9, 90, 95, 120, 180)
 
 def streams(chk, rng):
     S = chk.x_stats['streams'] = {k: {'returned': 0, 'rejected': 0} for k in
-                                  ('catalogue', 'perturbed', 'negative', 'non-finite', 'too-few', 'too-many', 'generic-arity')}
+                                  ('catalogue', 'pad', 'perturbed', 'negative', 'non-finite', 'too-few', 'too-many', 'generic-arity')}
     pads = (None, 30, 45) if chk.thorough else (None, 30)
     built = []
     for name, kw in CATALOGUE:
@@ -138,6 +138,16 @@ def streams(chk, rng):
             g = judge(chk, name, kw2, 'catalogue', must_build=(pad is None))
             if g is not None:
                 built.append((name, kw2, g))
+    # every face pad angle, also falling faces (negative) and sharp face corners (r1 = 0): returned => well-formed
+    for name, kw in CATALOGUE:
+        for pad in (-30, -10, -1, 0, 10):
+            for sharp in (False, True):
+                if sharp and not kw.get('r1'):
+                    continue
+                kw2 = dict(kw, pad_angle=pad, **({'r1': 0} if sharp else {}))
+                if blocking(chk):
+                    return built
+                judge(chk, name, kw2, 'pad')
     # perturbed parameters: returned => well-formed
     todo = []
     for name, kw in CATALOGUE:
@@ -206,6 +216,9 @@ def streams(chk, rng):
             if blocking(chk):
                 return built
             judge(chk, name, dict(kw, **{k: v}), 'too-many', must_raise=True)
+            # one value too many stays one too many when it is a zero (int, float or numpy zero)
+            for zero in (0, 0.0, np.float64(0)):
+                judge(chk, name, dict(kw, **{k: zero}), 'too-many', must_raise=True)
     # the generic class: exactly three of usable_width, ground_width, flank_angle, depth (values read back from real grooves)
     from pyroll.core import GenericElongationGroove, BoxGroove, FlatGroove
     for proto, dz in ((BoxGroove(depth=52, r1=15, r2=18, usable_width=185.29, ground_width=157.62), False), (FlatGroove(usable_width=100), True)):
